@@ -117,6 +117,11 @@ class OpaqueEngine(TasksEngine):
         return super().eval_index(sl, cx)
 
     def getitem_hook(self, obj, idx, cx, node):
+        if self.stable() and isinstance(obj, PyObj) and obj.cls == "mapping":
+            # a dict-like collaborator: KeyError exactly when the key is absent
+            k = self.as_v(idx)
+            cx.raise_if(z3.Not(z3.Function("py_has_key", V, V, BoolS)(obj.t, k)), "KeyError")
+            return PyObj(z3.Function("py_getitem", V, V, V)(obj.t, k))
         if self.stable() and isinstance(obj, PyObj):
             return PyObj(z3.Function("py_getitem", V, V, V)(obj.t, self.as_v(idx)))
         return PyObj(FreshConst(V, "item"))
@@ -138,6 +143,18 @@ class OpaqueEngine(TasksEngine):
                 return
         raise Unsupported("item store through " + type(tgt).__name__)
 
+    def builtin_eval(self, e, cx):
+        if self.stable():
+            args = [self.as_v(self.eval(a, cx)) for a in e.args]
+            cx.raise_if(FreshConst(BoolS, "eval_raises"), "UserError")
+            return PyObj(self.pure_term("builtin_eval", args, []))
+        return super().builtin_eval(e, cx)
+
+    def isinstance_hook(self, v, clsnode, cx):
+        if isinstance(clsnode, ast.Name) and isinstance(v, PyObj):
+            return PyBool(z3.Function("py_isinstance_" + clsnode.id, V, BoolS)(v.t))
+        return super().isinstance_hook(v, clsnode, cx)
+
     def builtin_len(self, e, cx):
         v = self.eval(e.args[0], cx)
         if self.stable() and isinstance(v, PyObj):
@@ -155,7 +172,7 @@ class OpaqueEngine(TasksEngine):
         raise Unsupported("range form")
 
     def global_name(self, name, cx, node):
-        if name in ("np", "_print", "print", "bool", "int", "float"):
+        if name in ("np", "_print", "print", "bool", "int", "float") or name in self.c.extra.get("opaque_globals", ()):
             return PyObj(z3.Const("py_global_" + name, V))
         return super().global_name(name, cx, node)
 
